@@ -763,6 +763,47 @@ fn sub_sequences(tier: Tier) -> Sub {
     .flavours(&["chk", "rel"])
 }
 
+/// Thorough tier only (`mcx::deep()`): every sequence of exactly 4 (code offset, instruction)
+/// pairs over a core alphabet.
+fn sub_sequences_len4_core() -> Sub {
+    let alpha = alphabet();
+    // 8 instructions spread over the alphabet x 4 code offsets
+    let pick: Vec<usize> = (0..8).map(|k| (k * alpha.len()) / 8).collect();
+    let offs: [u32; 4] = [0, 1, 0x40, 0x100];
+    let nopt = (pick.len() * offs.len()) as u64;
+    let n = nopt.pow(4);
+    Sub::new(
+        "instruction-sequences-len4-core",
+        n,
+        &format!("every sequence of exactly 4 (code offset, instruction) pairs over 8 instructions of the alphabet (indices {:?}) x factored code offset from {{0,1,0x40,0x100}} x (CAF,DAF) in {{(1,-8),(4,-16)}} x {{.debug_frame v4, .eh_frame v1}}; decreasing offsets under rel only", pick),
+        move |ctx, i| {
+            let mut r = i;
+            let mut prog: Vec<(u32, WI)> = vec![];
+            for _ in 0..4 {
+                let k = (r % nopt) as usize;
+                r /= nopt;
+                prog.push((offs[k % 4], alpha[pick[k / 4]].clone()));
+            }
+            let decreasing = prog.windows(2).any(|w| w[1].0 < w[0].0);
+            if (ctx.flavour == "rel") != decreasing {
+                ctx.outcome(if decreasing { "skipped:decreasing-under-debug-assertions" } else { "skipped:non-decreasing-under-rel" });
+                return;
+            }
+            ctx.nontriv(1);
+            for (caf, daf) in [(1u8, -8i8), (4, -16)] {
+                for kind in [Kind::DebugFrame, Kind::EhFrame] {
+                    let mut c = WCie::new(if kind == Kind::EhFrame { 1 } else { 4 }, false, 8, caf, daf);
+                    c.insns = vec![WI::Cfa(7, 8), WI::Offset(16, -16), WI::Offset(1, 16)];
+                    let insns: Vec<(u32, WI)> = prog.iter().map(|(o, x)| (o * caf as u32, x.clone())).collect();
+                    let t = WTable { cies: vec![c], fdes: vec![WFde { cie: 0, addr: 0x10_0000, len: 0x10_0000, lsda: None, insns }] };
+                    check_table(ctx, &t, kind, false);
+                }
+            }
+        },
+    )
+    .flavours(&["chk", "rel"])
+}
+
 fn sub_advance(_tier: Tier) -> Sub {
     let prevs = [0u32, 1, 5];
     let deltas: [u32; 17] = [0, 1, 0x3e, 0x3f, 0x40, 0x41, 0xfe, 0xff, 0x100, 0x101, 0xfffe, 0xffff, 0x10000, 0x10001, 0xff_ffff, 0x7fff_ffff, 0xffff_fff0];
@@ -932,7 +973,7 @@ fn dedup_variants() -> Vec<WCie> {
 
 fn sub_dedup(tier: Tier) -> Sub {
     let nv = dedup_variants().len() as u64;
-    let k = tier.pick(3u32, 4u32);
+    let k = if mcx::deep() { 5 } else { tier.pick(3u32, 4u32) };
     let n = seq_count(nv, 1, k);
     Sub::new(
         "cie-dedup",
@@ -971,7 +1012,13 @@ pub fn def(_cli_tier: Tier) -> CheckDef {
             "an offset of i32::MIN with DAF -1 (factored value 2^31) may be written or rejected, but must not panic".into(),
             "padding clause: (size of the initial length field, 4 or 12) + length is a multiple of the address size (DWARF 5 6.4.1)".into(),
         ],
-        subs: vec![sub_cie_params(tier), sub_eh_pointers(tier), sub_ra(tier), sub_sequences(tier), sub_advance(tier), sub_operands(tier), sub_factor_sweep(tier), sub_dedup(tier)],
+        subs: {
+            let mut v = vec![sub_cie_params(tier), sub_eh_pointers(tier), sub_ra(tier), sub_sequences(tier), sub_advance(tier), sub_operands(tier), sub_factor_sweep(tier), sub_dedup(tier)];
+            if mcx::deep() {
+                v.push(sub_sequences_len4_core());
+            }
+            v
+        },
         required_outcomes: ["write:ok", "write:err-code-offset", "write:err-data-offset", "write:err-decreasing-offset", "write:refused", "readback:entries-ok", "rows:ok", "err:InvalidContext", "err:PopWithEmptyStack", "dedup:checked", "skipped:decreasing-under-debug-assertions", "ehptr:must-accept", "ehptr:may-refuse"]
             .iter()
             .map(|s| s.to_string())
